@@ -409,6 +409,9 @@ func c10upload(ev *evid.Rec) func(rt *rapid.T) {
 		}
 		kids := genTree(rt, "t", 0, &budget, false)
 		kids = wideFolder(rt, kids)
+		// some clients end the information fork of an item right after the name (items are streamed without a comment)
+		hlref.ShortInfoFork = rapid.Bool().Draw(rt, "shortInfoFork")
+		defer func() { hlref.ShortInfoFork = false }()
 		all := flatten(nil, kids, false)
 		// server pre-seeding: some files already complete, some partial
 		seed := map[string]int{} // path -> -1 complete, >=0 partial length
